@@ -42,11 +42,13 @@ func (b *BasicAuth) doAuth(ctx context.Context) error {
 	if !ok {
 		return types.ErrInvaildGRPCRequestMeta
 	}
-	passwords, ok := meta[b.username]
-	if !ok {
+	// metadata keys are lower-cased on the wire, so is the lookup of MD.Get:
+	// a configured username with upper case letters must still find its entry
+	passwords := meta.Get(b.username)
+	if len(passwords) < 1 {
 		return types.ErrInvaildGRPCUsername
 	}
-	if len(passwords) < 1 || passwords[0] != b.password {
+	if passwords[0] != b.password {
 		return types.ErrInvaildGRPCPassword
 	}
 	return nil
